@@ -23,6 +23,10 @@ package main
 //   - inputs are distinct outputs;
 //   - a request that is well-formed, fundable, balanced, pays enough fee for the measured
 //     gas and is signed by a full quorum must build and must pass ValidateTx.
+// Amount demands (change, fee, fundable => builds, verdict) are made under the check's
+// documented side condition only: the wallet's uint64 sums stay below 2^64 (nowrap).
+// CHAINED BUILD (chain.go): a stream of its own drives account.SpendAccountChain the way
+// api.buildTxs does and applies a direct oracle to every transaction of the chain.
 // CORRESPONDENCE: the projection of the outcome (error classes / inputs / outputs / fee /
 // reserved outputs after Build / witness shapes / verdict class) against C27.Run.run_case.
 
@@ -456,6 +460,8 @@ type cspec struct {
 	UseHSM    bool     `json:"use_hsm"`
 	Mutation  string   `json:"mutation"`
 	Stream    string   `json:"stream"`
+	// stream "chain" (chain.go): the build-chain-transactions path; value of txbuilder.ChainTxUtxoNum
+	ChainUtxoNum int `json:"chain_utxo_num,omitempty"`
 }
 
 func buildErrClass(err error) int {
@@ -915,6 +921,54 @@ func (w *wallet) fundable(cs *cspec) bool {
 	return len(need) > 0
 }
 
+// nowrap: the side condition under which the wallet's uint64 sums are exact: per (account,
+// asset) the amounts of the spend actions (MergeSpendAction adds them), and per (account,
+// asset, vote) all the outputs of the group, mature or not (Reserve adds what it selected,
+// what is reserved and what is immature), sum to less than 2^64.
+func (w *wallet) nowrap(cs *cspec) bool {
+	two64 := new(big.Int).Lsh(big.NewInt(1), 64)
+	type g3 struct{ acct, asset, vote int }
+	spend := map[grp]*big.Int{}
+	funds := map[g3]*big.Int{}
+	for _, a := range cs.Actions {
+		if a.Kind == "spend" {
+			k := grp{a.Acct, a.Asset}
+			if spend[k] == nil {
+				spend[k] = new(big.Int)
+			}
+			spend[k].Add(spend[k], bigU(a.Amount))
+		}
+	}
+	for _, u := range cs.Utxos {
+		k := g3{u.acct, u.asset, u.vote}
+		if funds[k] == nil {
+			funds[k] = new(big.Int)
+		}
+		funds[k].Add(funds[k], bigU(u.amount))
+	}
+	for _, v := range spend {
+		if v.Cmp(two64) >= 0 {
+			return false
+		}
+	}
+	// only the groups a Reserve call of this request looks at
+	asked := map[g3]bool{}
+	for _, a := range cs.Actions {
+		switch a.Kind {
+		case "spend":
+			asked[g3{a.Acct, a.Asset, 0}] = true
+		case "veto":
+			asked[g3{a.Acct, a.Asset, a.Vote}] = true
+		}
+	}
+	for k, v := range funds {
+		if asked[k] && v.Cmp(two64) >= 0 {
+			return false
+		}
+	}
+	return true
+}
+
 func (w *wallet) oracle(cs *cspec, o *outcome) []string {
 	var fails []string
 	fail := func(f string, a ...interface{}) { fails = append(fails, fmt.Sprintf(f, a...)) }
@@ -925,6 +979,15 @@ func (w *wallet) oracle(cs *cspec, o *outcome) []string {
 	}
 	req := w.request(cs)
 	fundable := w.fundable(cs)
+	// the documented side condition (checks/C27.json, C26's nowrap): below 2^64 the wallet's
+	// uint64 sums are exact; at or above it MergeSpendAction's "+=", Reserve's
+	// optAmount+reservedAmount+immatureAmount and TxData.Fee wrap, and nothing about amounts
+	// is demanded (such sums exceed any supply: amounts on chain stay below 2^63)
+	exact := w.nowrap(cs)
+	if !exact {
+		fundable = false
+		w.c.Stats.Count("oracle:request-outside-nowrap-side-condition")
+	}
 	if o.tag == 1 {
 		if fundable {
 			fail("class=fundable-build-failed: a well-formed request covered by mature funds does not build: %v", o.buildErr)
@@ -998,7 +1061,19 @@ func (w *wallet) oracle(cs *cspec, o *outcome) []string {
 		}
 		changeBy[g].Add(changeBy[g], bigU(out.Amount))
 	}
+	two64 := new(big.Int).Lsh(big.NewInt(1), 64)
+	for _, v := range inSum {
+		if v.Cmp(two64) >= 0 {
+			if exact {
+				w.c.Stats.Count("oracle:inputs-of-one-asset-sum-to-2^64-or-more")
+			}
+			exact = false // TxData.Fee / the validator's sums wrap
+		}
+	}
 	for g, want := range req.fromAcct {
+		if !exact {
+			break
+		}
 		got := new(big.Int)
 		if inBy[g] != nil {
 			got.Set(inBy[g])
@@ -1023,11 +1098,11 @@ func (w *wallet) oracle(cs *cspec, o *outcome) []string {
 		return m[k]
 	}
 	feeTx := new(big.Int).Sub(z(inSum, btmLabel), z(outSum, btmLabel))
-	if feeTx.Sign() >= 0 && feeTx.Cmp(bigU(o.fee)) != 0 {
+	if exact && feeTx.Sign() >= 0 && feeTx.Cmp(bigU(o.fee)) != 0 {
 		fail("class=fee: Template.Fee = %d, BTM inputs - outputs = %v", o.fee, feeTx)
 	}
 	feeReq := new(big.Int).Sub(z(req.in, btmLabel), z(req.out, btmLabel))
-	if len(fails) == 0 && feeReq.Cmp(feeTx) != 0 {
+	if exact && len(fails) == 0 && feeReq.Cmp(feeTx) != 0 {
 		fail("class=fee: BTM inputs - outputs = %v, requested in - out = %v", feeTx, feeReq)
 	}
 	// verdict
@@ -1089,7 +1164,7 @@ func (w *wallet) oracle(cs *cspec, o *outcome) []string {
 		gas = big.NewInt(consensus.MaxGasAmount)
 	}
 	paid := feeTx.Sign() >= 0 && gas.Cmp(big.NewInt(2*needGas+1000)) >= 0
-	if len(fails) == 0 && balanced && legal && signed && paid && o.validErr != nil {
+	if exact && len(fails) == 0 && balanced && legal && signed && paid && o.validErr != nil {
 		fail("class=valid-request-rejected: balanced, funded, fully signed transaction with fee %v (gas needed %d) is rejected: %v", feeTx, needGas, o.validErr)
 	}
 	w.c.Stats.Count(fmt.Sprintf("expect-valid=%v", balanced && legal && signed && paid))
@@ -1796,6 +1871,13 @@ func run(c *Ctx) error {
 		w.runCase(cs, prev)
 		prev = cs.Utxos
 	}
+	// the chained build (SpendAccountChain): oracle only, see chain.go
+	nChain := c.N(500, 3000)
+	for i := 0; i < nChain; i++ {
+		cs := g.chainCase()
+		w.runChainCase(cs, prev)
+		prev = cs.Utxos
+	}
 	n := c.N(900, 6000)
 	for i := 0; i < n; i++ {
 		stream := "valid"
@@ -1811,7 +1893,7 @@ func run(c *Ctx) error {
 		prev = cs.Utxos
 	}
 	c.Stats.Distribution["model_evaluated"] = c.Cases.Len()
-	c.Stats.Rule = "nontrivial = Build succeeds with at least one funded input and one output (distinct request + UTXO set)"
+	c.Stats.Rule = "nontrivial = Build succeeds with at least one funded input and one output (distinct request + UTXO set); stream chain (SpendAccountChain, oracle only: 1-12 BTM outputs of one or two accounts of the four quorum shapes on receive- and change-branch addresses, amount aimed at consuming 1..7+ of them, ChainTxUtxoNum 5 or 3, 14% requests that must not build): nontrivial = the chain has at least one merge transaction"
 	header := "From Coq Require Import List ZArith NArith Bool.\nFrom C27 Require Import Model Run.\nImport ListNotations.\nOpen Scope N_scope.\n"
 	return c.Cases.Write(c.Out, header, "cres", "cres_eqb")
 }
